@@ -247,15 +247,37 @@ def _builders(db, chk, new, old, OPEN_N, CLOSE_N, START_O, END_O):
     def open_old(test, lp):
         return H.match(f"{H.name_id(lp.target)}.type == EVENT_START", test) is not None
     lp2 = _loop_discipline(chk, old, g, open_old)
-    srt2 = [c for c in H.calls(g) if isinstance(c.func, ast.Attribute) and c.func.attr == "sort" and "compare_events" in ast.unparse(c)]
-    chk.ob("C03.R3-builder", f"{OLD}: the analysed comparator sorts the endpoints before the scan", len(srt2) == 1 and lp2 is not None and srt2[0].lineno < lp2.lineno and "cmp_to_key(compare_events)" in ast.unparse(srt2[0]),
-           old.loc(g), found=[ast.unparse(s) for s in srt2], accepted="events.sort(key=cmp_to_key(compare_events))")
+    # events.sort(key=cmp_to_key(compare_events))  |  events = sorted(<all events>, key=cmp_to_key(compare_events))
+    srt2 = [c for c in H.calls(g) if ((isinstance(c.func, ast.Attribute) and c.func.attr == "sort") or H.name_id(c.func) == "sorted") and "compare_events" in ast.unparse(c)]
+    ok_srt = len(srt2) == 1 and lp2 is not None and H.before(srt2[0], lp2) and "cmp_to_key(compare_events)" in ast.unparse(srt2[0]) and not any(k.arg == "reverse" for k in srt2[0].keywords)
+    chk.ob("C03.R3-builder", f"{OLD}: the analysed comparator sorts the endpoints before the scan", ok_srt if srt2 else None,
+           old.loc(g), found=[ast.unparse(s)[:120] for s in srt2], accepted="events.sort(key=cmp_to_key(compare_events))")
     ev_fields = None
     for st in old.tree.body:
         if isinstance(st, ast.Assign) and H.name_id(st.targets[0]) == "Event" and isinstance(st.value, ast.Call):
             ev_fields = lit(st.value.args[1])
     chk.ob("C03.R4-encoding", f"{OLD}: Event fields", ev_fields == ["idx", "time", "dur", "type"], OLD, found=ev_fields, accepted=["idx", "time", "dur", "type"])
-    evs = [c for c in H.calls(g) if H.name_id(c.func) == "Event"]
+    unit_g = [g] + [x for x in H.with_private_callees(old, old.func("CallStackGraph._construct_call_stack_graph")) if x is not old.func("CallStackGraph._construct_call_stack_graph")]
+    evs = [c for u_ in unit_g for c in H.calls(u_) if H.name_id(c.func) == "Event"]
+    evs = [c for i_, c in enumerate(evs) if not any(ast.dump(c) == ast.dump(d_) for d_ in evs[:i_])]          # (an inlined copy and the helper itself show the same call)
+    # loop variables that stand for a column of the row: `for a, b in zip(df["x"], df["y"])` (a -> x), `for row in df.itertuples()` (row.x -> x)
+    colvar = {}
+    for u_ in unit_g:
+        for lp_ in [n for n in ast.walk(u_) if isinstance(n, ast.For)]:
+            if isinstance(lp_.iter, ast.Call) and H.name_id(lp_.iter.func) == "zip" and isinstance(lp_.target, ast.Tuple) and len(lp_.target.elts) == len(lp_.iter.args):
+                for tv, src in zip(lp_.target.elts, lp_.iter.args):
+                    cn = lit(src.slice) if isinstance(src, ast.Subscript) else (src.attr if isinstance(src, ast.Attribute) else None)
+                    if isinstance(src, ast.Call) and isinstance(src.func, ast.Attribute) and src.func.attr in ("tolist", "to_list", "to_numpy") and isinstance(src.func.value, ast.Subscript):
+                        cn = lit(src.func.value.slice)
+                    if isinstance(tv, ast.Name) and isinstance(cn, str):
+                        colvar[tv.id] = cn
+
+    def colname(a):
+        if isinstance(a, ast.Attribute) and isinstance(a.value, ast.Name):
+            return a.attr
+        if isinstance(a, ast.Name):
+            return colvar.get(a.id, a.id)
+        return ast.unparse(a)
     if len(evs) == 1:
         # one constructor inside `for <a>, <b> in ((x1, y1), (x2, y2))`: unroll the literal pairs
         import copy as _copy
@@ -276,13 +298,8 @@ def _builders(db, chk, new, old, OPEN_N, CLOSE_N, START_O, END_O):
                 break
     got = sorted(tuple(ast.unparse(a) for a in c.args) for c in evs)
     want = sorted([("row.index", "row.ts", "row.dur", "EVENT_START"), ("row.index", "row.end", "row.dur", "EVENT_END")])
-    bb = H.Bindings()
-    oke = len(evs) == 2
-    for c in sorted(evs, key=lambda c: ast.unparse(c.args[-1]) if c.args else ""):
-        r = H.match("Event($r.index, $r.end, $r.dur, EVENT_END)", c, bb) or H.match("Event($r.index, $r.ts, $r.dur, EVENT_START)", c, bb)
-        oke = oke and r is not None
-        bb = r or bb
-    oke = oke and {ast.unparse(c.args[-1]) for c in evs} == {"EVENT_START", "EVENT_END"}
+    cols_got = sorted(tuple(colname(a) for a in c.args) for c in evs)
+    oke = len(evs) == 2 and cols_got == sorted([("index", "ts", "dur", "EVENT_START"), ("index", "end", "dur", "EVENT_END")])
     chk.ob("C03.R4-encoding", f"{OLD}: every row yields Event(id, ts, dur, START) and Event(id, end, dur, END)", oke if len(evs) == 2 else None, old.loc(g), found=got, accepted=want,
            why="positional construction must agree with the field order the comparator reads")
     endo = [s for s in ast.walk(g) if isinstance(s, ast.Assign) and isinstance(s.targets[0], ast.Subscript) and lit(s.targets[0].slice) == "end"]
